@@ -873,11 +873,20 @@ class PrepareAst:
             assert after_starred >= 0
 
             if after_starred == 0:
-                return [*source[0:starred_index], source[starred_index:]]
+                starred_source = source[starred_index:]
+            else:
+                starred_source = source[starred_index:-after_starred]
+
+            if isinstance(starred_source, (tuple, str, range)):
+                # a starred target is always bound to a list
+                starred_source = list(starred_source)
+
+            if after_starred == 0:
+                return [*source[0:starred_index], starred_source]
             else:
                 return [
                     *source[0:starred_index],
-                    source[starred_index:-after_starred],
+                    starred_source,
                     *source[-after_starred:],
                 ]
 
